@@ -193,7 +193,15 @@ func (x *vc) callStatic(fr *frame, st *state, callee *ssa.Function, binds []Val,
 }
 
 func shortFn(fn *ssa.Function) string {
-	s := fn.RelString(fn.Pkg.Pkg)
+	var s string
+	if fn.Pkg == nil {
+		s = fn.String()
+		if k := strings.LastIndex(s, "/"); k >= 0 {
+			s = s[k+1:]
+		}
+	} else {
+		s = fn.RelString(fn.Pkg.Pkg)
+	}
 	s = strings.NewReplacer("(*", "", ")", "", "(", "").Replace(s)
 	return s
 }
